@@ -96,7 +96,7 @@ def case_vcf(run, i):
     for va in arrays:
         if va is None or not len(va):
             continue
-        for fn in (lambda: va.baf_by_ranges(seg), lambda: va.baf_by_ranges(seg, tumor_boost=True), lambda: va.mirrored_baf(),
+        for fn in (lambda: va.baf_by_ranges(seg), lambda: va.baf_by_ranges(seg, tumor_boost=True), lambda: va.baf_by_ranges(seg, above_half=bool(i % 2)), lambda: va.mirrored_baf(),
                    lambda: va.mirrored_baf(True), lambda: va.mirrored_baf(False, True), lambda: va.tumor_boost()):
             try:
                 fn()
